@@ -7,6 +7,7 @@ op encodings (JSON lists):
   ['DOTNONE', a]  ['TOSTRING', ic]
   ['SELF', i]     replace_child(c, c): a child replaced by itself (also what e.xml_x = e.xml_x does)
   ['FOREIGN', a]  remove(c) / replace_child(c, new) with c a child of ANOTHER element of the same class
+  ['ADDSTALE', a] add_child(c) with c a child that was swapped out of another, checked, element by replace_child
 a = element name; i = index into the harness's own list of live children (insertion order,
 replacements substituted); i == len(live) addresses a child that is not present.
 """
@@ -21,6 +22,7 @@ import z3
 from . import lib, symx, lang
 
 KINDS = ['ADD', 'ADDF', 'REMOVE', 'REPLACE', 'DOTSET', 'DOTVAL', 'DOTNONE', 'TOSTRING', 'SELF', 'FOREIGN']
+EXTRA_KINDS = ['ADDSTALE']      # only used by checks that ask for it (indices continue after KINDS)
 
 DOCUMENTED = ('XMLElement', 'XMLChildContainer', 'XSD')
 INTERNAL = ('NotImplementedError', 'IndexError', 'KeyError', 'RecursionError', 'NameError', 'UnboundLocalError',
@@ -74,6 +76,8 @@ class Step:
 
 
 class World:
+    explicit = False        # True: xml_* shortcuts are replaced by the explicit calls they abbreviate (C15)
+
     def __init__(self, name, xsd_check=True):
         self.name = name
         self.model = lib.content_model(name)
@@ -141,16 +145,30 @@ class World:
             elif k == 'DOTSET':
                 c = self.mk(op[1])
                 found = self.first_named(op[1])
-                setattr(e, lib.dot_name(op[1]), c)
+                if self.explicit:
+                    old = e.find_child(lib.class_name(op[1]))
+                    if old is not None:
+                        e.replace_child(old, c)
+                    else:
+                        e.add_child(c)
+                else:
+                    setattr(e, lib.dot_name(op[1]), c)
                 if found is not None:
                     self.live[self.live.index(found)] = c
                     self.dead.append(found)
                 else:
                     self.live.append(c)
             elif k == 'DOTVAL':
-                v = lib.valid_value(op[1])
+                v = (lib.alt_value(op[1]) if lib.alt_value(op[1]) is not None else lib.valid_value(op[1])) if len(op) < 3 else op[2]
                 found = self.first_named(op[1])
-                setattr(e, lib.dot_name(op[1]), v)
+                if self.explicit:
+                    old = e.find_child(lib.class_name(op[1]))
+                    if old is not None:
+                        old.value_ = v
+                    else:
+                        e.add_child(lib.cls_of(op[1])(v))
+                else:
+                    setattr(e, lib.dot_name(op[1]), v)
                 if found is None:
                     # the library created the child itself: adopt it
                     new = [c for c in e.get_children(ordered=False) if id(c) not in self.made]
@@ -160,12 +178,26 @@ class World:
                         self.live.append(c)
             elif k == 'DOTNONE':
                 found = self.first_named(op[1])
-                setattr(e, lib.dot_name(op[1]), None)
+                if self.explicit:
+                    old = e.find_child(lib.class_name(op[1]))
+                    if old is not None:
+                        e.remove(old)
+                else:
+                    setattr(e, lib.dot_name(op[1]), None)
                 if found is not None:
                     self.live.remove(found)
                     self.dead.append(found)
             elif k == 'TOSTRING':
                 st.text = e.to_string(intelligent_choice=bool(op[1]))
+            elif k == 'ADDSTALE':
+                other = lib.make(self.name)
+                c = self.mk(op[1])
+                other.add_child(c)
+                repl = self.mk(op[1])
+                self.made.pop(id(repl), None)
+                other.replace_child(c, repl)
+                e.add_child(c)
+                self.live.append(c)
             elif k == 'SELF':
                 c = self.live[op[1]] if op[1] < len(self.live) else self.absent()
                 e.replace_child(c, c)
@@ -303,7 +335,7 @@ class Picker:
         self.eng = eng
         self.A = alphabet
         self.kinds = kinds
-        self.kidx = sorted(KINDS.index(x) for x in kinds)
+        self.kidx = sorted((KINDS + EXTRA_KINDS).index(x) for x in kinds)
         self.fwd = fwd
         self.maxpos = maxpos
         self.simple = simple or set()
@@ -319,8 +351,8 @@ class Picker:
 
     def pick(self, w, j):
         eng = self.eng
-        kind = KINDS[eng.choose('kind%d' % j, lambda: (z3.Int('k%d' % j), self._among(z3.Int('k%d' % j), self.kidx)))]
-        if kind in ('ADD', 'ADDF', 'REPLACE', 'DOTSET', 'DOTVAL', 'DOTNONE', 'FOREIGN'):
+        kind = (KINDS + EXTRA_KINDS)[eng.choose('kind%d' % j, lambda: (z3.Int('k%d' % j), self._among(z3.Int('k%d' % j), self.kidx)))]
+        if kind in ('ADD', 'ADDF', 'REPLACE', 'DOTSET', 'DOTVAL', 'DOTNONE', 'FOREIGN', 'ADDSTALE'):
             idxs = self.sidx if kind == 'DOTVAL' else list(range(len(self.A)))
             if not idxs:
                 raise symx.Abort()
@@ -334,8 +366,8 @@ class Picker:
             hi = min(len(w.live), self.maxpos)
             pos = eng.choose('pos%d' % j, lambda: (z3.Int('p%d' % j), [z3.Int('p%d' % j) >= 0, z3.Int('p%d' % j) <= hi]))
             return [kind, pos] if kind != 'REPLACE' else ['REPLACE', pos, sym]
-        if kind == 'FOREIGN':
-            return ['FOREIGN', sym]
+        if kind in ('FOREIGN', 'ADDSTALE'):
+            return [kind, sym]
         if kind in ('DOTSET', 'DOTVAL', 'DOTNONE'):
             return [kind, sym]
         if kind == 'TOSTRING':
@@ -554,6 +586,7 @@ def explore_states(name, D, budget, kinds_by_depth, judge, alphabet=None, fwd=(-
     for a in A:
         try:
             lib.make(a, xsd_check=False, serial=1)
+            lib.alt_value(a)
         except Exception:
             pass
     try:
@@ -565,7 +598,7 @@ def explore_states(name, D, budget, kinds_by_depth, judge, alphabet=None, fwd=(-
     state = dict(seen=0, nontriv=0, first=trace_funcs)
     w0 = World(name, xsd_check=xsd_check)
     seen = {fingerprint(w0)}
-    frontier = [[]] + [list(p) for p in (prefixes or [])]
+    frontier = [list(p) for p in prefixes] if prefixes else [[]]
     for p in prefixes or []:
         try:
             seen.add(fingerprint(run_ops(name, p, xsd_check)))
